@@ -1,4 +1,5 @@
-package main
+// Package lib: wire values and the case loop shared by every harness command.
+package lib
 
 import (
 	"bufio"
@@ -11,14 +12,14 @@ import (
 
 // Val is the universal wire value: integer, byte string or list.
 type Val struct {
-	K byte // 'i', 'b', 'l'
-	I int64
+	K   byte // 'i', 'b', 'l'
+	I   int64
 	Big *big.Int // set when the integer does not fit int64
-	B []byte
-	L []Val
+	B   []byte
+	L   []Val
 }
 
-func I(n int64) Val   { return Val{K: 'i', I: n} }
+func I(n int64) Val { return Val{K: 'i', I: n} }
 func U(n uint64) Val {
 	if n <= 1<<62 {
 		return I(int64(n))
@@ -31,9 +32,9 @@ func Bo(b bool) Val {
 	}
 	return I(0)
 }
-func B(b []byte) Val     { return Val{K: 'b', B: b} }
-func S(s string) Val     { return Val{K: 'b', B: []byte(s)} }
-func L(vs ...Val) Val    { return Val{K: 'l', L: vs} }
+func B(b []byte) Val       { return Val{K: 'b', B: b} }
+func S(s string) Val       { return Val{K: 'b', B: []byte(s)} }
+func L(vs ...Val) Val      { return Val{K: 'l', L: vs} }
 func Panic(msg string) Val { return L(S("!panic"), S(msg)) }
 
 func (v Val) At(i int) Val {
@@ -42,11 +43,11 @@ func (v Val) At(i int) Val {
 	}
 	return v.L[i]
 }
-func (v Val) Int() int64   { return v.I }
-func (v Val) Bool() bool   { return v.K == 'i' && v.I != 0 }
+func (v Val) Int() int64    { return v.I }
+func (v Val) Bool() bool    { return v.K == 'i' && v.I != 0 }
 func (v Val) Bytes() []byte { return v.B }
-func (v Val) Str() string  { return string(v.B) }
-func (v Val) List() []Val  { return v.L }
+func (v Val) Str() string   { return string(v.B) }
+func (v Val) List() []Val   { return v.L }
 
 func (v Val) write(sb *strings.Builder) {
 	switch v.K {
@@ -92,7 +93,7 @@ func hexv(c byte) byte {
 	}
 }
 
-func parseVal(s string, pos *int) Val {
+func parseValAt(s string, pos *int) Val {
 	for *pos < len(s) && (s[*pos] == ' ' || s[*pos] == '\t') {
 		*pos++
 	}
@@ -114,7 +115,7 @@ func parseVal(s string, pos *int) Val {
 				*pos++
 				return out
 			}
-			out.L = append(out.L, parseVal(s, pos))
+			out.L = append(out.L, parseValAt(s, pos))
 		}
 	case 'x':
 		*pos++
@@ -145,10 +146,10 @@ func parseVal(s string, pos *int) Val {
 	}
 }
 
-func ParseVal(s string) Val { p := 0; return parseVal(s, &p) }
+func ParseVal(s string) Val { p := 0; return parseValAt(s, &p) }
 
 // safely runs f on one case; a panic in the code under test becomes the !panic marker
-func safely(f func(Val) Val, c Val) (out Val) {
+func Safely(f func(Val) Val, c Val) (out Val) {
 	defer func() {
 		if r := recover(); r != nil {
 			out = Panic(fmt.Sprint(r))
@@ -157,9 +158,8 @@ func safely(f func(Val) Val, c Val) (out Val) {
 	return f(c)
 }
 
-var commands = map[string]func(Val) Val{}
-
-func main() {
+// Main runs the case loop: os.Args[1] selects the command; cases on stdin, observations on stdout.
+func Main(commands map[string]func(Val) Val) {
 	if len(os.Args) < 2 {
 		fmt.Fprintln(os.Stderr, "usage: vh <command>  (cases on stdin, observations on stdout)")
 		os.Exit(2)
@@ -181,7 +181,7 @@ func main() {
 			if journal != "" { // the case about to run, so a dead process leaves its input behind
 				_ = os.WriteFile(journal, []byte(strconv.Itoa(n)+"\n"+line+"\n"), 0644)
 			}
-			v := safely(f, ParseVal(line))
+			v := Safely(f, ParseVal(line))
 			out.WriteString(v.String())
 			out.WriteByte('\n')
 			out.Flush()
